@@ -12,11 +12,12 @@ META = dict(
                'interface is evaluated exactly once, with the same depth and request, at natural_to_cartesian of (o + x*u, z) (Cartesian) or '
                '(sqrt(x*x+z*z), o + atan2(z,x)*u) (spherical), and its answer is returned slot for slot with every velocity block replaced by '
                '(u.(vx,vy), vz, 0).',
-    level_note='Trusted: translator, shims, CBMC; o and u are the stored first cross-section point and unit direction: that '
-               'World::parse_entries computes u = (c1-c0)/|c1-c0| (and converts degrees) is not under contract (rapidjson-bound function). '
+    level_note='Trusted: translator, shims, CBMC; o and u are the stored first cross-section point and direction; World::parse_entries is under contract for: '
+               'dim = 2 exactly when a cross section is declared, exactly two points (else exception), points scaled by pi/180 in spherical worlds, '
+               'u = (c0-c1)*(-1/sqrt(|c0-c1|^2)) as an expression tree (that this has unit length is a real-number fact not decided here). '
                'The velocity projection is applied in spherical worlds as well, as the code does; the statement only speaks about Cartesian ones.',
-    scope='World::properties(array<double,2>, depth, properties)',
-    not_covered=['cross-section direction and degree conversion in World::parse_entries', 'natural_to_cartesian_coordinates itself (C19 covers the conversion formulas)'],
+    scope='World::properties(array<double,2>, depth, properties); World::parse_entries (cross section, dim)',
+    not_covered=['unit length of the direction as a real-number fact', 'natural_to_cartesian_coordinates itself (C19 covers the conversion formulas)'],
     enforced_elsewhere={'World_properties_3d': 'C01/props3d'},
 )
 _u = copy.deepcopy([u for u in C01.UNITS if u['name'] == 'props2d'][0])
@@ -26,7 +27,14 @@ _u['canaries'] = [
      'E_add_a_mul_a_a((*Point2_op_index__unsignedlong_c(&this_->cross_section.data[wb_idx(((unsigned long)0), this_->cross_section.n)], ((unsigned long)0)))', 'second coordinate starts from the first component of the section origin'),
     (r'= \(\(double\)0\);\n\s*counter \+= \(\(unsigned int\)3\)', '= ((double)1);\n              counter += ((unsigned int)3)', 'third velocity slot set to 1 instead of 0'),
 ]
-UNITS = [_u]
+# World::parse_entries (constants wiring / cross-section direction): shared contract file, unit defined in C15.py
+_spec15 = importlib.util.spec_from_file_location('c15', os.path.join(HERE, 'C15.py'))
+C15 = importlib.util.module_from_spec(_spec15)
+_spec15.loader.exec_module(C15)
+_wp = copy.deepcopy(C15.WORLD_PARSE)
+_wp['name'] = 'world_parse_section'
+
+UNITS = [_u, _wp]
 
 WORLD = C01.WORLD
 
